@@ -305,7 +305,12 @@ static void scenario(const vh::Json& sc, vh::Out& out, vh::Rng& rng, const vh::A
                         else { for (FileSniffer::iterator it = sn->begin(); it != sn->end(); ++it) { Packet& p = *it; Timestamp ts = p.timestamp(); got.push_back(rd.see(p.pdu(), &ts)); if (k && (long)got.size() == k) break; } }
                     } else {
                         uint32_t maxp = api == "loopmax" ? (uint32_t)k : 0; long stop = api == "loop" ? k : 0;
-                        if (fv == 0) sn->sniff_loop([&](PDU& pdu) -> bool { got.push_back(rd.see(&pdu, 0)); return !(stop && (long)got.size() == stop); }, maxp);
+                        // in every other scenario the handler "fails" on some packets the way user code does (rfind_pdu of a layer that is
+                        // not there): sniff_loop is documented to trap pdu_not_found / malformed_packet and go on with the next frame
+                        const bool thrower = (out.sid % 2) == 0;
+                        if (fv == 0) sn->sniff_loop([&](PDU& pdu) -> bool { got.push_back(rd.see(&pdu, 0)); bool last = stop && (long)got.size() == stop;
+                                                                            if (thrower && !last && got.size() % 3 == 2) { if (got.size() % 2) (void)pdu.rfind_pdu<DHCPv6>(); else throw malformed_packet(); }
+                                                                            return !last; }, maxp);
                         else if (fv == 1) sn->sniff_loop([&](Packet& p) -> bool { Timestamp ts = p.timestamp(); got.push_back(rd.see(p.pdu(), &ts)); return !(stop && (long)got.size() == stop); }, maxp);
                         else sn->sniff_loop([&](Packet p) -> bool { Timestamp ts = p.timestamp(); got.push_back(rd.see(p.pdu(), &ts)); return !(stop && (long)got.size() == stop); }, maxp);
                     }
